@@ -36,6 +36,9 @@ func (n *Net) packet(round uint64, prev, sig []byte) *proto.PartialBeaconPacket 
 
 // signAt signs with the live polynomial evaluated at an arbitrary index.
 func signAt(e *fx.Net, idx int, round uint64, prev []byte) []byte {
+	if !fx.Chained(e.Scheme.Name) {
+		prev = nil
+	}
 	sig, err := e.Scheme.ThresholdScheme.Sign(e.Poly.Eval(idx), e.Digest(round, prev))
 	if err != nil {
 		panic(err)
@@ -48,6 +51,8 @@ func signAt(e *fx.Net, idx int, round uint64, prev []byte) []byte {
 func (n *Net) Forge(kind, signer, to int, round uint64, prev []byte, salt int) (*proto.PartialBeaconPacket, string) {
 	e := n.Live
 	chained := fx.Chained(n.Cfg.Scheme)
+	// honest nodes put the previous signature in the packet on every scheme; only chained schemes sign it
+	pktPrev := prev
 	if !chained {
 		prev = nil
 	}
@@ -56,47 +61,48 @@ func (n *Net) Forge(kind, signer, to int, round uint64, prev []byte, salt int) (
 	label := AdvNames[kind]
 	switch kind {
 	case AdvValid:
-		return n.packet(round, prev, valid), label
+		return n.packet(round, pktPrev, valid), label
 	case AdvWrongShare:
 		foreign := share.NewPriPoly(e.Scheme.KeyGroup, e.T, nil, fx.Stream(n.Cfg.Seed, fmt.Sprintf("foreign%d", salt)))
 		sig, _ := e.Scheme.ThresholdScheme.Sign(foreign.Eval(idx), e.Digest(round, prev))
-		return n.packet(round, prev, sig), label
+		return n.packet(round, pktPrev, sig), label
 	case AdvOtherRound:
-		return n.packet(round, prev, signAt(e, idx, round+1, prev)), label
+		return n.packet(round, pktPrev, signAt(e, idx, round+1, prev)), label
 	case AdvOtherPrev:
 		other := fx.Bytes(n.Cfg.Seed, fmt.Sprintf("otherprev%d", salt), 96)
 		if !chained {
 			// unchained digests ignore prev: relabelling changes nothing cryptographically, so use another round instead
-			return n.packet(round, nil, signAt(e, idx, round+2, nil)), "other-round"
+			return n.packet(round, pktPrev, signAt(e, idx, round+2, nil)), "other-round"
 		}
-		return n.packet(round, prev, signAt(e, idx, round, other)), label
+		return n.packet(round, pktPrev, signAt(e, idx, round, other)), label
 	case AdvJunkPrev:
+		// valid on its own, but for a different chain position (chained) / a different cache slot (unchained)
 		junk := fx.Bytes(n.Cfg.Seed, fmt.Sprintf("junkprev%d", salt), 8+salt%40)
 		return n.packet(round, junk, signAt(e, idx, round, junk)), label
 	case AdvNonMember:
 		out := 1000 + salt%50
-		return n.packet(round, prev, signAt(e, out, round, prev)), label
+		return n.packet(round, pktPrev, signAt(e, out, round, prev)), label
 	case AdvReceiverIndex:
 		ridx := n.liveIndexOf(to)
 		if ridx < 0 {
 			ridx = idx
 		}
-		return n.packet(round, prev, signAt(e, ridx, round, prev)), label
+		return n.packet(round, pktPrev, signAt(e, ridx, round, prev)), label
 	case AdvTruncated:
 		cut := 1 + salt%(len(valid)-1)
-		return n.packet(round, prev, valid[:cut]), label
+		return n.packet(round, pktPrev, valid[:cut]), label
 	case AdvBitFlip:
 		b := append([]byte(nil), valid...)
 		pos := 2 + salt%(len(b)-2)
 		b[pos] ^= 1 << (salt % 8)
-		return n.packet(round, prev, b), label
+		return n.packet(round, pktPrev, b), label
 	case AdvEmpty:
-		return n.packet(round, prev, nil), label
+		return n.packet(round, pktPrev, nil), label
 	case AdvIndexOnly:
-		return n.packet(round, prev, valid[:2]), label
+		return n.packet(round, pktPrev, valid[:2]), label
 	case AdvFutureRound:
 		fr := round + 2 + uint64(salt%8)
-		return n.packet(fr, prev, signAt(e, idx, fr, prev)), label
+		return n.packet(fr, pktPrev, signAt(e, idx, fr, prev)), label
 	}
 	panic("unknown kind")
 }
@@ -117,10 +123,25 @@ func (n *Net) liveIndexOf(pos int) int {
 
 // ValidPartialIndex independently verifies a partial for (round, prev) against the live public polynomial and group membership;
 // it returns the signer index, or -1 if the partial is not a valid member partial for exactly that (round, prev).
-func (n *Net) ValidPartialIndex(e *fx.Net, round uint64, prev, sig []byte) int {
+func (n *Net) ValidPartialIndex(e *fx.Net, round uint64, prev, sig []byte) (out int) {
 	if !fx.Chained(n.Cfg.Scheme) {
 		prev = nil
 	}
+	ck := fmt.Sprintf("%p|%d|%x|%x", e, round, prev, sig)
+	n.vmu.Lock()
+	if v, ok := n.pcache[ck]; ok {
+		n.vmu.Unlock()
+		return v
+	}
+	n.vmu.Unlock()
+	defer func() {
+		n.vmu.Lock()
+		if n.pcache == nil {
+			n.pcache = map[string]int{}
+		}
+		n.pcache[ck] = out
+		n.vmu.Unlock()
+	}()
 	idx, err := e.Scheme.ThresholdScheme.IndexOf(sig)
 	if err != nil || idx < 0 {
 		return -1
